@@ -19,6 +19,13 @@
         hex: "z" = empty string
         tree ::= n | t | f | i<decimal>. | s<hex>. | a<count>.<tree>* | o<count>.(<key hex>.<tree>)*
      -> conf=<0|1> then one token per executed call: die | out | ok/<tid>=<tree>|-/<obs tree>|-
+   N <libver hex> <commit hex> <model version hex> <ops>   the same with the mark calls of C17 (coq/Rt/MarkJsonDefs.v: mrun):
+             | m<type>,<flags>,<title hex|N>      ovni_mark_type   (N = NULL)
+             | l<type>,<value>,<label hex|N>      ovni_mark_label
+     -> one token per executed call as for M (no conf= field: "mark")
+   P <tree> <tree> ...                      -> what the emulator makes of the "ovni.mark" metadata of these threads (emulation order):
+        refused | types <T;T;..|-> pcf <refused|S;S;..|->
+        T ::= <type>:<0 single|1 stack>:<title hex>:<v>=<label hex>,...    S ::= <prv type>:<title hex>:<v>=<label hex>,...
    K <0|1: some stream of the process has app_id> <tree>   -> meta_check (to_loader_meta tree): MetaOk | MetaIgnored | MetaErr:<name>
    Q <tree>                                 -> thread_req: none | <model hex>=<version hex>,...
    S <tree>                                 -> stream_meta: none | loom hex;pid;tid;app|-;rank|-;nranks|-;cpus (i:p,...)|- *)
@@ -39,9 +46,19 @@ let bytes_of_hex s =
 let hex_of_bytes (l : z list) =
   if l = [] then "z" else String.concat "" (List.map (fun z -> Printf.sprintf "%02x" (int_of_z z)) l)
 
-(* all integers of the protocol fit 63 bits (|v| <= 2^53) *)
-let z_of_string s = z_of_int (int_of_string s)
-let string_of_z z = string_of_int (int_of_z z)
+(* integers of the protocol: any int64 (mark values), printed/parsed through Int64 *)
+let rec pos_of_int64 (n : int64) =
+  if n = 1L then XH
+  else if Int64.logand n 1L = 0L then XO (pos_of_int64 (Int64.shift_right_logical n 1))
+  else XI (pos_of_int64 (Int64.shift_right_logical n 1))
+let z_of_int64 (n : int64) =
+  if n = 0L then Z0 else if n > 0L then Zpos (pos_of_int64 n)
+  else if n = Int64.min_int then Zneg (XO (pos_of_int64 (Int64.shift_right_logical n 1)))
+  else Zneg (pos_of_int64 (Int64.neg n))
+let rec int64_of_pos = function XH -> 1L | XO p -> Int64.mul 2L (int64_of_pos p) | XI p -> Int64.add (Int64.mul 2L (int64_of_pos p)) 1L
+let int64_of_z = function Z0 -> 0L | Zpos p -> int64_of_pos p | Zneg p -> Int64.neg (int64_of_pos p)
+let z_of_string s = z_of_int64 (Int64.of_string s)
+let string_of_z z = Int64.to_string (int64_of_z z)
 
 (* --- tree encoding *)
 let rec enc (j : json) : string =
@@ -106,6 +123,24 @@ let parse_op (s : string) : op =
   | 'F' -> Flush
   | _ -> failwith "op"
 
+let opt_hex s = if s = "N" then None else Some (bytes_of_hex s)
+let parse_mop (s : string) : mop =
+  let rest = String.sub s 1 (String.length s - 1) in
+  match s.[0] with
+  | 'm' -> (match args rest with [a; b; c] -> MMarkType (z_of_string a, z_of_string b, opt_hex c) | _ -> failwith "m")
+  | 'l' -> (match args rest with [a; b; c] -> MMarkLabel (z_of_string a, z_of_string b, opt_hex c) | _ -> failwith "l")
+  | _ -> MBase (parse_op s)
+
+let split_prog (s : string) : (int * string) list =
+  if s = "-" then [] else
+  List.map (fun t ->
+      let i = String.index t ':' in
+      (int_of_string (String.sub t 0 i), String.sub t (i + 1) (String.length t - i - 1)))
+    (String.split_on_char ';' s)
+
+let labels_txt (l : (z * z list) list) =
+  String.concat "," (List.map (fun (v, s) -> string_of_z v ^ "=" ^ hex_of_bytes s) l)
+
 let parse_prog (s : string) : prog =
   if s = "-" then [] else
   List.map (fun t ->
@@ -139,6 +174,31 @@ let () =
               "ok/" ^ (match w with None -> "-" | Some (tid, j) -> string_of_z tid ^ "=" ^ enc j) ^ "/" ^
               (match o with None -> "-" | Some j -> enc j) in
           Printf.printf "conf=%d %s\n" (if meta_conformant p then 1 else 0) (String.concat " " (List.map tok evs))
+        | ["N"; lv; lc; mv; ops] ->
+          let c = { c_lib_version = bytes_of_hex lv; c_lib_commit = bytes_of_hex lc; c_model_version = bytes_of_hex mv } in
+          let p = List.map (fun (sl, o) -> (nat_of_int sl, parse_mop o)) (split_prog ops) in
+          let (evs, _) = mrun c p in
+          let tok = function
+            | EvDie -> "die"
+            | EvOut -> "out"
+            | EvOk (w, o) ->
+              "ok/" ^ (match w with None -> "-" | Some (tid, j) -> string_of_z tid ^ "=" ^ enc j) ^ "/" ^
+              (match o with None -> "-" | Some j -> enc j) in
+          Printf.printf "mark %s\n" (String.concat " " (List.map tok evs))
+        | "P" :: trees ->
+          let ts = List.map dec (List.filter (fun x -> x <> "") trees) in
+          (match emu_types_of_trees ts with
+           | None -> print_endline "refused"
+           | Some ms ->
+             let tt = String.concat ";" (List.map (fun m ->
+                 Printf.sprintf "%s:%d:%s:%s" (string_of_z m.mt_type) (if m.mt_stack then 1 else 0) (hex_of_bytes m.mt_title) (labels_txt m.mt_labels)) ms) in
+             let pp = match emu_pcf_of_trees ts with
+               | None -> "refused"
+               | Some secs ->
+                 let x = String.concat ";" (List.map (fun ((ty, ti), vs) ->
+                     Printf.sprintf "%s:%s:%s" (string_of_z ty) (hex_of_bytes ti) (labels_txt vs)) secs) in
+                 if x = "" then "-" else x in
+             Printf.printf "types %s pcf %s\n" (if tt = "" then "-" else tt) pp)
         | ["K"; has; t] ->
           (match meta_check (to_loader_meta (dec t)) (has = "1") with
            | MetaOk -> print_endline "MetaOk"
